@@ -363,6 +363,7 @@ def check_c17(v: Verdict, n_classes):
             v.samples.append(desc)
     inherit_battery(v, rng, max(4, n_classes // 3), hist)
     pep696_battery(v, hist)
+    pep696_chain_battery(v, hist)
     bad = []
     shard = 300
     for k in range(0, len(cases), shard):
@@ -448,3 +449,74 @@ def pep696_battery(v: Verdict, hist):
                 finally:
                     sys.modules.pop(modname, None)
     hist["pep696_cases"] = n
+
+
+PEP696_CHAIN_SRC = '''import dataclasses, attrs
+from typing import Any, Dict, Generic, List, Optional
+from typing_extensions import TypeVar
+@attrs.define
+class Inner:
+    a: int
+    b: str = "x"
+D = TypeVar("D", default={dflt})
+{deco}
+class WithDefault(Generic[D]):
+    x: D
+    xs: List[D]
+{deco}
+class Child(WithDefault):
+    y: int
+{deco}
+class GrandChild(Child):
+    z: int
+{deco}
+class MonoGrandChild:
+    x: {dflt}
+    xs: List[{dflt}]
+    y: int
+    z: int
+'''
+
+
+def pep696_chain_battery(v: Verdict, hist):
+    """systematic: a generic class all of whose parameters have defaults (PEP 696), reached through PLAIN (unsubscripted) subclasses, one
+    and two levels down: structured and unstructured like the monomorphised copy (parameters replaced by their defaults)"""
+    import sys
+    import types as _types
+    from cattrs import Converter
+    n = 0
+    for kind in ("attrs", "dataclass"):
+        for dflt, raw, want in (("str", 1, "1"), ("int", "7", 7), ("Inner", {"a": "3"}, None)):
+            deco = {"attrs": "@attrs.define", "dataclass": "@dataclasses.dataclass"}[kind]
+            src = PEP696_CHAIN_SRC.format(dflt=dflt, deco=deco)
+            modname = f"verif_pep696c_{kind}_{dflt}"
+            mod = _types.ModuleType(modname)
+            sys.modules[modname] = mod
+            try:
+                exec(compile(src, modname, "exec"), mod.__dict__)
+                payload = {"x": raw, "xs": [raw], "y": "2", "z": "3"}
+                for dvmode in (True, False):
+                    conv = Converter(detailed_validation=dvmode)
+                    desc = {"lane": "GEN/C17 PEP 696 defaults through plain subclasses", "kind": kind, "default_of_D": dflt, "detailed_validation": dvmode, "class_source": src}
+                    for cname, keys in (("WithDefault", ("x", "xs")), ("Child", ("x", "xs", "y")), ("GrandChild", ("x", "xs", "y", "z"))):
+                        n += 1
+                        v.count(repr((kind, dflt, dvmode, cname)), True)
+                        cl = getattr(mod, cname)
+                        p = {k: payload[k] for k in keys}
+                        got = outcome(lambda: [getattr(conv.structure(dict(p), cl), k) for k in keys])
+                        ref = outcome(lambda: [getattr(conv.structure(dict(payload), mod.MonoGrandChild), k) for k in keys])
+                        if got != ref:
+                            v.violation("a generic class with defaulted type parameters, reached through plain subclasses, is not structured like its monomorphised copy",
+                                        {**desc, "class": cname, "payload": repr(p), "got": repr(got)[:400], "monomorphised_copy": repr(ref)[:400]})
+                            continue
+                        if got[0] == "ok":
+                            inst = conv.structure(dict(p), cl)
+                            u = outcome(lambda: conv.unstructure(inst))
+                            mono = conv.structure(dict(payload), mod.MonoGrandChild)
+                            uref = outcome(lambda: {k: x for k, x in conv.unstructure(mono).items() if k in keys})
+                            if u != uref:
+                                v.violation("a generic class with defaulted type parameters, reached through plain subclasses, is not unstructured like its monomorphised copy",
+                                            {**desc, "class": cname, "got": repr(u)[:400], "monomorphised_copy": repr(uref)[:400]})
+            finally:
+                sys.modules.pop(modname, None)
+    hist["pep696_chain_cases"] = n
